@@ -1142,6 +1142,28 @@ def _public_tables():
 
 
 # ---------------------------------------------------------------------------------------------------------- run
+def _built_entries(R):
+    """entries a library function builds for SEPARATE items must be separate objects: a track built from a chord list
+    that repeats a chord name (no item is split across a bar line here; the split case is the C11 finding)"""
+    from mingus.containers.track import Track
+    G = "Track.from_chords (separate entries, separate objects)"
+    for chords, dur in ((["C", "F", "G", "C"], 1), (["Am", "Am"], 1), ([["C", "C"], ["F", "C"]], 1), (["G7", "C", "G7", "C"], 4)):
+        R.case(G, (repr(chords), dur))
+        t = Track().from_chords(chords, dur)
+        conts = [e[2] for b in t.bars for e in b.bar if e[2] is not None]
+        notes = [n for c in conts for n in c.notes]
+        if len(set(id(c) for c in conts)) != len(conts) or len(set(id(n) for n in notes)) != len(notes):
+            R.fail(G, C_SIB, "entries of from_chords(%r, %r) share container or note objects (an edit of one entry "
+                   "changes another)" % (chords, dur), (chords, dur))
+            continue
+        before = [[(n.name, n.octave) for n in c.notes] for c in conts]
+        conts[0].augment()
+        after = [[(n.name, n.octave) for n in c.notes] for c in conts]
+        if after[1:] != before[1:]:
+            R.fail(G, C_SIB, "augmenting the first entry of from_chords(%r, %r) changed other entries: %r -> %r"
+                   % (chords, dur, before[1:], after[1:]), (chords, dur))
+
+
 def run(tier, seed):
     R = Recorder("C15", tier, seed)
     for f in PROPOSED_FINDINGS:
@@ -1156,6 +1178,7 @@ def run(tier, seed):
                 ("sibling instances", C_SIB, lambda: _siblings(R, tier, rnd)),
                 ("midi_file_out", C_SIB, lambda: _midi_writers(R, tier, rnd)),
                 ("copies", C_COPY, lambda: _copies(R, tier, rnd)),
+                ("entries built by the library", C_SIB, lambda: _built_entries(R)),
                 ("fft index memory", C_FFT, lambda: _fft_index(R, tier, rnd))]
     try:
         tables0 = _public_tables()
